@@ -11,7 +11,7 @@ use rand_chacha::ChaCha20Rng;
 use rand_core::RngCore;
 use serde_json::json;
 
-pub const RULE: &str = "for every data type with byte conversions (26) x 2 groups x {bytes, serde_bare, serde_json}: take honest encodings (one per variant), locate every decoder-validated point inside the encoding, and replace it by (a) on-curve points OUTSIDE the prime-order subgroup (found by scanning x with the reference's unchecked decompression; 4 quick / 8 thorough per group, both y signs), (b) x-coordinates with no curve point, (c) flag-bit variants (compression bit cleared, infinity bit with non-zero body, sort bit on infinity, x >= p, all-ones), then decode. Plus (d) every truncation length of every encoding (a strict prefix must be rejected), +1/+32 extensions (must be rejected by the exact-length types: keys, proofs of possession, commitments, scalars), all-zero scalars through every byte importer, the encodings 0, 1, r-1, r, r+1, 2r, 2r+1, 2^255, 2^256-1 through all 15 scalar importers (whatever is accepted must be non-zero), and seeded random byte strings per decoder (2k quick / 40k thorough per suite). ORACLE (independent validator): whenever a decoder returns Ok, every point re-extracted from the returned value must classify as a subgroup point under the reference's checked decompression - lenient-but-safe decoding is NOT an alarm. Share containers hold unparsed payloads: the same bad payloads are planted in SignatureShare / PublicKeyShare / SignDecryptionShare / ElGamalDecryptionShare and every combining / verifying entry point must return an error. Distinct by (suite,type,codec,mutated bytes); non-trivial = the mutated input reached a decoder's point/scalar validation (counted separately: inputs the independent validator itself classifies, and how many decoders accepted). Sibling payloads: for every share type a point outside the subgroup whose encoding shares its first (resp. last) half with a valid payload is presented directly after that valid payload - as a further share in the same call, in the next call, and to the share verifier - and must be refused each time (validation at every use, whatever was validated before). At validated point positions, substituted bytes that the reference cannot decode to a subgroup point (off-curve x, non-subgroup point, malformed flags incl. the infinity flag with any low bit set) must be refused outright - returning some valid point for them is a violation too.";
+pub const RULE: &str = "for every data type with byte conversions (26) x 2 groups x {bytes, serde_bare, serde_json}: take honest encodings (one per variant), locate every decoder-validated point inside the encoding, and replace it by (a) on-curve points OUTSIDE the prime-order subgroup (found by scanning x with the reference's unchecked decompression; 4 quick / 8 thorough per group, both y signs), (b) x-coordinates with no curve point, (c) flag-bit variants (compression bit cleared, infinity bit with non-zero body, sort bit on infinity, x >= p, all-ones), then decode. Plus (d) every truncation length of every encoding (a strict prefix must be rejected), +1/+32 extensions (must be rejected by the exact-length types: keys, proofs of possession, commitments, scalars), all-zero scalars through every byte importer, the encodings 0, 1, r-1, r, r+1, 2r, 2r+1, 2^255, 2^256-1 through all 15 scalar importers (whatever is accepted must be non-zero), and seeded random byte strings per decoder (2k quick / 40k thorough per suite). ORACLE (independent validator): whenever a decoder returns Ok, every point re-extracted from the returned value must classify as a subgroup point under the reference's checked decompression - lenient-but-safe decoding is NOT an alarm. Share containers hold unparsed payloads: the same bad payloads are planted in SignatureShare / PublicKeyShare / SignDecryptionShare / ElGamalDecryptionShare and every combining / verifying entry point must return an error. Distinct by (suite,type,codec,mutated bytes); non-trivial = the mutated input reached a decoder's point/scalar validation (counted separately: inputs the independent validator itself classifies, and how many decoders accepted). Sibling payloads: for every share type a point outside the subgroup whose encoding shares its first (resp. last) half with a valid payload is presented directly after that valid payload - as a further share in the same call, in the next call, and to the share verifier - and must be refused each time (validation at every use, whatever was validated before). At validated point positions, substituted bytes that the reference cannot decode to a subgroup point (off-curve x, non-subgroup point, malformed flags incl. the infinity flag with any low bit set) must be refused outright - returning some valid point for them is a violation too. JSON documents are also truncated structurally: every tuple-like array with its last / first element removed or emptied and every object with one field removed must be refused.";
 
 pub fn run(ctx: &mut Ctx) {
     for_both!(run_suite, ctx);
@@ -129,6 +129,10 @@ impl<'a, C: Suite> Visitor<C> for V<'a> {
                 if *codec == "json" {
                     if let Ok(doc) = serde_json::from_slice::<serde_json::Value>(enc) {
                         self.ctx.require(&format!("{n}/{tn}/json/string-length"));
+                        for (_name, bytes) in json_structural_truncations(&doc) {
+                            self.decode_and_judge::<C, T>("json", &bytes, "structurally-truncated", true);
+                            self.ctx.hit(&format!("{n}/{tn}/json/string-length"), &[&bytes]);
+                        }
                         for (kind, bytes) in json_length_variants(&doc) {
                             let must = kind == "string-truncated" || T::EXACT_LEN;
                             self.decode_and_judge::<C, T>("json", &bytes, kind, must);
@@ -409,6 +413,84 @@ fn shares<C: Suite>(ctx: &mut Ctx, env: &Env<C>, bad_sig: &[(String, Vec<u8>)], 
         }
     }
     ctx.sample(&format!("{n}/shares/Signature::from_shares"), || json!({"bad_payload_classes": bad_sig.iter().map(|(k,_)| k.clone()).collect::<Vec<_>>() }));
+}
+
+/// structural truncations of a JSON document: every tuple-like array (its elements are not all
+/// numbers) with its last / first element removed or emptied, and every object with one field
+/// removed. A document cut short in this way is well-formed JSON, but it is a truncated encoding.
+fn json_structural_truncations(doc: &serde_json::Value) -> Vec<(String, Vec<u8>)> {
+    fn paths(v: &serde_json::Value, path: &mut Vec<String>, acc: &mut Vec<Vec<String>>) {
+        match v {
+            serde_json::Value::Array(a) => {
+                if !a.is_empty() && !a.iter().all(|x| x.is_number()) {
+                    acc.push(path.clone());
+                }
+                for (i, x) in a.iter().enumerate().take(4) {
+                    path.push(i.to_string());
+                    paths(x, path, acc);
+                    path.pop();
+                }
+            }
+            serde_json::Value::Object(o) => {
+                acc.push(path.clone());
+                for (k, x) in o {
+                    path.push(k.clone());
+                    paths(x, path, acc);
+                    path.pop();
+                }
+            }
+            _ => {}
+        }
+    }
+    fn at<'a>(v: &'a mut serde_json::Value, path: &[String]) -> Option<&'a mut serde_json::Value> {
+        let mut cur = v;
+        for p in path {
+            cur = match cur {
+                serde_json::Value::Array(a) => a.get_mut(p.parse::<usize>().ok()?)?,
+                serde_json::Value::Object(o) => o.get_mut(p)?,
+                _ => return None,
+            };
+        }
+        Some(cur)
+    }
+    let mut acc = Vec::new();
+    paths(doc, &mut Vec::new(), &mut acc);
+    let mut out = Vec::new();
+    for p in acc {
+        let mut variants: Vec<(String, serde_json::Value)> = Vec::new();
+        let mut d = doc.clone();
+        match at(&mut d, &p) {
+            Some(serde_json::Value::Array(a)) => {
+                let n = a.len();
+                let mut x = doc.clone();
+                if let Some(serde_json::Value::Array(b)) = at(&mut x, &p) { b.pop(); }
+                variants.push((format!("array{}-last-removed", p.join(".")), x));
+                if n > 1 {
+                    let mut x = doc.clone();
+                    if let Some(serde_json::Value::Array(b)) = at(&mut x, &p) { b.remove(0); }
+                    variants.push((format!("array{}-first-removed", p.join(".")), x));
+                }
+                let mut x = doc.clone();
+                if let Some(serde_json::Value::Array(b)) = at(&mut x, &p) { b.clear(); }
+                variants.push((format!("array{}-emptied", p.join(".")), x));
+            }
+            Some(serde_json::Value::Object(o)) => {
+                let keys: Vec<String> = o.keys().cloned().collect();
+                for k in keys {
+                    let mut x = doc.clone();
+                    if let Some(serde_json::Value::Object(b)) = at(&mut x, &p) { b.remove(&k); }
+                    variants.push((format!("object{}-field-{k}-removed", p.join(".")), x));
+                }
+            }
+            _ => {}
+        }
+        for (name, v) in variants {
+            if let Ok(b) = serde_json::to_vec(&v) {
+                out.push((name, b));
+            }
+        }
+    }
+    out
 }
 
 /// every string leaf of a JSON document with 1 or 2 hex characters appended / removed
